@@ -7,9 +7,9 @@ texts mention them through placeholders ($[n] = alias of the n-th constituent, $
 SET_DEFS = ['$[%d]', '$[%d]∪$[%d]', '$[%d]\\$[%d]', '$[%d]∩$[%d]', 'ℬ($[%d])', '$[%d]×$[%d]', 'Pr1($[%d])', 'Pr2($[%d])', 'red($[%d])',
             'D{x∈$[%d] | x∈$[%d]}', 'D{x∈$[%d] | ∃y∈$[%d] (x,y)∈$[%d]}', 'I{(a,b) | a:∈$[%d]; b:∈$[%d]}', 'card($[%d])', 'debool($[%d])',
             '{$[%d]}', 'bool($[%d])', '$[%d]∪$[%d]∪$[%d]', 'D{x∈$[%d] | x=x}', 'Pr1($[%d])∪Pr2($[%d])', '$[%d]×$[%d]×$[%d]', 'pr1(debool($[%d]))',
-            'Fi1[$[%d]]($[%d])', 'R{x:=$[%d] | x∪$[%d]}', 'ℬ($[%d]×$[%d])', 'ℬℬ($[%d])', 'ℬ($[%d]×ℬ($[%d]))', '$[%d][$[%d]]', '$[%d][$[%d], $[%d]]']
+            'Fi1[$[%d]]($[%d])', 'R{x:=$[%d] | x∪$[%d]}', 'ℬ($[%d]×$[%d])', 'ℬℬ($[%d])', 'ℬ($[%d]×ℬ($[%d]))', '$[%d][$[%d]]', '$[%d][$[%d], $[%d]]', '$[%d][ℬ($[%d])]']
 LOGIC_DEFS = ['∀x∈$[%d] x∈$[%d]', '$[%d]=$[%d]', '$[%d]⊆$[%d]', '$[%d]≠∅', '∃x∈$[%d] x∉$[%d]', 'card($[%d])>card($[%d])', '$[%d][$[%d]]', '1=1']
-FUNC_DEFS = ['[a∈ℬ($[%d])] a∪$[%d]', '[a∈ℬ(R1)] a∪a', '[a∈$[%d], b∈ℬ($[%d])] {a}∪b', '[a∈ℬ(R1), b∈ℬ(R2)] a×b', '[a∈ℬ($[%d])] D{x∈a | x∈$[%d]}', '[a∈ℬ($[%d])] $[%d][a]']
+FUNC_DEFS = ['[a∈ℬℬ($[%d])] a∩{$[%d]}', '[a∈ℬℬ($[%d])] a∪{$[%d]}', '[a∈ℬ($[%d])] a∪$[%d]', '[a∈ℬ(R1)] a∪a', '[a∈$[%d], b∈ℬ($[%d])] {a}∪b', '[a∈ℬ(R1), b∈ℬ(R2)] a×b', '[a∈ℬ($[%d])] D{x∈a | x∈$[%d]}', '[a∈ℬ($[%d])] $[%d][a]']
 PRED_DEFS = ['[a∈$[%d], b∈ℬ($[%d])] a∈b', '[a∈ℬ($[%d])] a⊆$[%d]', '[a∈ℬ(R1)] a=a']
 BAD_DEFS = ['$[%d]∪', '((', '$[%d] $[%d]', 'X77∪$[%d]', '$self∪$[%d]', '$self', '∀x∈$[%d] x∈', 'D{x∈$[%d] |', 'Pr0($[%d])', '$[%d]∪1', 'card($[%d])∪$[%d]', '$[%d]=', 'x∈$[%d]',
             '$[%d] \\union $[%d]', 'A77', 'F77[$[%d]]', '$def[%d]', '$def[%d]', '$def[%d] ', '($def[%d])']
@@ -194,10 +194,21 @@ def edit_op(rnd, f='a', span=12, other=None, weights=None):
 
 def motif(rnd, f='a', span=12):
     """short directed sequences aimed at incremental-update corner cases (each step is an ordinary editing operation)"""
-    k = rnd.choice(['introduce', 'there-and-back', 'swap', 'chain-edit', 'erase-recreate'])
+    k = rnd.choice(['introduce', 'there-and-back', 'swap', 'chain-edit', 'erase-recreate', 'func-body-edit'])
     i, j, t = rnd.randrange(span), rnd.randrange(span), rnd.randrange(span)
     name = rnd.choice(DANGLING[:6])
     mk = lambda **kw: dict({'op': 'form.op', 'f': f}, **kw)
+    if k == 'func-body-edit':
+        # a function keeps its type, arguments and value class while its body changes; dependants call it with a PROPERTY
+        # argument (their value class is derived from the callee's stored syntax tree)
+        bodies = ['[α∈ℬℬ($[0])] α∩{$[0]}', '[α∈ℬℬ($[0])] α∪{$[0]}', '[α∈ℬℬ($[0])] α\\{$[0]}', '[α∈ℬℬ($[0])] {$[0]}∪α', '[α∈ℬℬ($[0])] α']
+        first, second, third = rnd.sample(bodies, 3)
+        return [mk(k='emplace', type='function', **{'def': first}),
+                mk(k='emplace', type='term', **{'def': '$[-1][ℬ($[0])]'}),
+                mk(k='emplace', type='term', **{'def': '$[-1]\\$[-1]'}),
+                mk(k='emplace', type='axiom', **{'def': 'card($[-2])=1'}),
+                mk(k='setexpr', uid={'idx': -4}, text=second),
+                mk(k='setexpr', uid={'idx': -4}, text=third)]
     if k == 'introduce':
         # a definition (and its dependant) mention a name that only appears later through a rename without substitution
         return [mk(k='setexpr', uid={'idx': i}, text=rnd.choice([name + '∪' + name, name + '×$[%d]' % j, 'ℬ(' + name + ')', name + '\\$[%d]' % j])),
